@@ -96,6 +96,12 @@ FamD == {MkTx(V1, <<In(Hash(1), Zero32N, Script(7, 1000000), Max32N, <<>>)>>, <<
 
 AllTx == FamA1 \cup FamA2 \cup FamB2 \cup FamB3 \cup FamAm \cup FamC \cup FamD
 
+\* L: transactions put into Litecoin's MWEB-flagged form (flag 0x08 without, 0x09 with witness data):
+\* mixes of witness / non-witness inputs, every witness stack shape, 32-bit field boundaries, 252/253 stacks
+LtcBase == FamB2 \cup FamA2
+           \cup {t \in FamA1 : Size(t.ins[1].script) = 1 /\ t.outs = <<>>}
+           \cup {t \in FamC : t.outs = <<>>}
+
 \* E: the unspents extension: one spent output per input
 UnspentLists(n) ==
   LET U == {Out(A1, <<>>), Out(A64m, Script(118, 253)), Out(A32, Script(118, 65536)), Out(A63, Script(0, 1))}
